@@ -65,8 +65,11 @@ def _scene(nan, neg):
     from astropy.modeling.models import Gaussian2D
     yy, xx = np.mgrid[:40, :44]
     img = np.zeros((40, 44))
+    # (the fifth source is a close companion: its segment lies inside the
+    # Kron / circular aperture of the second one)
     for (x, y, a, s) in [(10, 9, 60, 1.6), (30, 12, 90, 1.5),
-                         (13, 29, 50, 1.8), (31, 30, 70, 1.4)]:
+                         (13, 29, 50, 1.8), (31, 30, 70, 1.4),
+                         (34.6, 13.2, 60, 1.3)]:
         img += Gaussian2D(a, x, y, s, s)(xx, yy)
     img += np.random.default_rng(3).normal(0, 0.3, img.shape)
     if neg:
@@ -227,7 +230,15 @@ def _entries():
 
     def e_catalog(i):
         d = i['data']
-        segm = detect_sources(np.nan_to_num(val(d)), 3.0, 5)
+        # a user-made segmentation in which the close companion is its own
+        # segment, lying inside its neighbour's Kron / circular apertures
+        from photutils.segmentation import SegmentationImage
+        yy, xx = np.mgrid[:40, :44]
+        srcs = [(10, 9), (30, 12), (13, 29), (31, 30), (34.6, 13.2)]
+        dist = np.array([np.hypot(xx - x, yy - y) for x, y in srcs])
+        lab = np.argmin(dist, axis=0) + 1
+        lab[(np.nan_to_num(val(d)) <= 3.0) | (np.min(dist, axis=0) > 6)] = 0
+        segm = SegmentationImage(lab)
         bkg = np.full(val(d).shape, 0.2)
         if hasattr(d, 'unit'):
             bkg = bkg * d.unit
@@ -235,7 +246,10 @@ def _entries():
         cat = SourceCatalog(d, segm, error=i['error'], mask=i['mask'],
                             background=bkg, localbkg_width=4,
                             progress_bar=False)
-        cat.to_table(cat.properties[:])
+        for p_ in cat.properties:
+            getattr(cat, p_)
+        cat.to_table()
+        cat.kron_photometry((2.5, 1.4))
         cat.circular_photometry(3.0)
         cat.fluxfrac_radius(0.5)
     E['SourceCatalog'] = (('ndarray', 'view', 'quantity'), e_catalog)
@@ -365,6 +379,9 @@ def _entries():
     return E
 
 
+_last_raise = [None]
+
+
 def _check(entry, container, nan, neg, maskk, err, boxw=None):
     """Run one entry point on one generated input; -> None or message."""
     import astropy.units as u
@@ -382,7 +399,8 @@ def _check(entry, container, nan, neg, maskk, err, boxw=None):
             mask = mask.astype(np.int8)
     error = None
     if err:
-        error = np.full(img.shape, 0.3)
+        error = 0.3 + 0.01 * np.arange(img.shape[1])[None, :] + \
+            0.02 * np.arange(img.shape[0])[:, None]  # non-uniform
         if unit is not None:
             error = error * unit
     inputs = dict(data=data, mask=mask, error=error,
@@ -398,6 +416,7 @@ def _check(entry, container, nan, neg, maskk, err, boxw=None):
             raised = e
     # arguments created inside the entry wrapper (kernels, tables, models..)
     # are snapshotted by the wrapper itself through a second clean run
+    _last_raise[0] = raised
     for k in before:
         if not _same(before[k], _snap(inputs[k])):
             return (f'{entry}: argument {k!r} ({container}, nan={nan}, '
@@ -427,7 +446,8 @@ def _check_extra(entry, container, nan, neg, maskk, err):
                 mask = mask.astype(np.int8)
         error = None
         if err:
-            error = np.full(img.shape, 0.3)
+            error = 0.3 + 0.01 * np.arange(img.shape[1])[None, :] + \
+            0.02 * np.arange(img.shape[0])[:, None]  # non-uniform
             if hasattr(data, 'unit'):
                 error = error * data.unit
         return dict(data=data, mask=mask, error=error, box=(10, 11))
@@ -493,6 +513,11 @@ def _run_entry(case):
         ctx.stats.obligations += 1
         cnt['n'] += 1
         msg = _check(entry, container, nan, neg, maskk, err, boxw)
+        if _last_raise[0] is not None and not nan and maskk != 'int8' \
+                and container in ('ndarray', 'view'):
+            # vacuity guard: the plain call must actually run
+            raise RuntimeError(f'entry {entry} raised on a plain input: '
+                               f'{_last_raise[0]!r}')
         if msg is None:
             msg = _check_extra(entry, container, nan, neg, maskk, err)
         params = dict(entry=entry, container=container, nan=nan, neg=neg,
